@@ -75,6 +75,7 @@ type Path struct {
 	bypass     string
 	prelude    bool
 	revMaps    bool
+	syncMaps   map[*value]*Map
 	dom        map[string]*byteDom
 	entangled  map[string]bool
 	domDecided int
